@@ -1108,6 +1108,32 @@ func runL2History(g *gen, prof l2profile, nops int, stats map[string]int) (strin
 	intx := map[int]bool{}
 	autoTx := map[int]bool{}
 	var recent []sval
+	if nconn >= 2 && !prof.roReader && !prof.vacuum && !prof.monotone && g.r.Intn(4) == 0 {
+		// an UPDATE that assigns the value a column already holds is a write with its own time: a
+		// concurrent, OLDER assignment of another value must lose against it after the merge
+		k := key()
+		full := func(v sval) ([]sval, []bool) {
+			vals, mask := make([]sval, ncols), make([]bool, ncols)
+			for i := range vals {
+				vals[i], mask[i] = v, true
+			}
+			return vals, mask
+		}
+		v1, m1 := full(sval{tag: 'I', i: 41})
+		v2, m2 := full(sval{tag: 'I', i: 42})
+		do(&sop{kind: "wt", c: 0, t: l2BaseSec + 10})
+		do(&sop{kind: "ins", c: 0, key: k, vals: v1})
+		do(&sop{kind: "refresh", c: 1})
+		do(&sop{kind: "wt", c: 0, t: l2BaseSec + 30})
+		do(&sop{kind: "upd", c: 0, key: k, vals: v1, mask: m1})
+		do(&sop{kind: "wt", c: 1, t: l2BaseSec + 20})
+		do(&sop{kind: "upd", c: 1, key: k, vals: v2, mask: m2})
+		do(&sop{kind: "refresh", c: 0})
+		do(&sop{kind: "refresh", c: 1})
+		do(&sop{kind: "sel", c: 0})
+		do(&sop{kind: "sel", c: 1})
+		stats["script_same_value_reassigned"]++
+	}
 	if prof.connAttrs && prof.autoTime && g.r.Intn(3) == 0 {
 		// a transaction that starts with the automatic write time and gets an explicit one after its
 		// first write: the explicit time applies from then on and stays set after COMMIT
